@@ -89,12 +89,27 @@ def check_case(ctx, case):
             if mr['err'] is not None:
                 return res.violate('model', 'base layer rejected: %s' % mr['err'])
             continue
-        notes = model.Notes()
+        pols = model.null_policies()
+        notes = model.Notes(null_policy=pols[0])
         try:
             expect = model.merge(cur, layers[i], notes)
             rej = None
         except model.Reject as e:
             expect, rej = None, e.why
+        if notes.null_used and not notes.unspec:
+            # the statement is silent on a null child over an existing value: accept any
+            # reading (parent value kept / replaced by null), whichever the code follows
+            res.labels.add('null-child:any-reading')
+            got = dr['docs'][0]['data'] if dr.get('docs') and len(dr['docs']) == 1 else None
+            for pol in pols:
+                n2 = model.Notes(null_policy=pol)
+                try:
+                    expect2, rej2 = model.merge(cur, layers[i], n2), None
+                except model.Reject as e:
+                    expect2, rej2 = None, e.why
+                if (rej2 is not None and mr['err'] is not None) or (rej2 is None and mr['err'] is None and veq(got, expect2)):
+                    notes, expect, rej = n2, expect2, rej2
+                    break
         res.labels.update('rule:' + r for r in notes.rules)
         if notes.unspec:
             res.skip(notes.unspec[0])
